@@ -56,6 +56,7 @@ func mk(op string, sort Sort, name string, i *big.Int, f uint64, args ...*Term) 
 	sb.WriteString(op)
 	sb.WriteByte('|')
 	sb.WriteString(name)
+	sb.WriteByte('0' + byte(sort))
 	if i != nil {
 		sb.WriteByte('#')
 		sb.WriteString(i.String())
@@ -85,11 +86,47 @@ var (
 	False = mk("false", SBool, "", nil, 0)
 )
 
-func Var(name string, s Sort) *Term { return mk("var", s, name, nil, 0) }
-func IntConst(v int64) *Term        { return mk("int", SInt, "", big.NewInt(v), 0) }
-func BigConst(v *big.Int) *Term     { return mk("int", SInt, "", new(big.Int).Set(v), 0) }
-func UintConst(v uint64) *Term      { return mk("int", SInt, "", new(big.Int).SetUint64(v), 0) }
+func Var(name string, s Sort) *Term {
+	if RealMode && s == SFP {
+		s = SReal
+	}
+	return mk("var", s, name, nil, 0)
+}
+
+// RealMode (the "XR-lite" interpretation, DESIGN §0.2): every float term is built as an
+// exact real; there is no rounding, no NaN and no infinity. Only meaningful for harnesses
+// that restrict their inputs to finite values; decides "equal up to rounding" as equality
+// over the reals.
+var RealMode = false
+
+func realConst(f float64) *Term {
+	if f != f || math.IsInf(f, 0) {
+		// no real counterpart: an unconstrained symbol (harnesses in real mode must not
+		// depend on special values)
+		return mk("var", SReal, fmt.Sprintf("r!special!%x", math.Float64bits(f)), nil, 0)
+	}
+	r := new(big.Rat).SetFloat64(f)
+	return mk("real", SReal, r.String(), nil, 0)
+}
+
+func rbin(op string, a, b *Term) *Term { return mk(op, SReal, "", nil, 0, a, b) }
+
+func ratOf(t *Term) (*big.Rat, bool) {
+	if t.Op != "real" {
+		return nil, false
+	}
+	r, ok := new(big.Rat).SetString(t.Name)
+	return r, ok
+}
+
+func ratConst(r *big.Rat) *Term { return mk("real", SReal, r.String(), nil, 0) }
+func IntConst(v int64) *Term    { return mk("int", SInt, "", big.NewInt(v), 0) }
+func BigConst(v *big.Int) *Term { return mk("int", SInt, "", new(big.Int).Set(v), 0) }
+func UintConst(v uint64) *Term  { return mk("int", SInt, "", new(big.Int).SetUint64(v), 0) }
 func FPConst(f float64) *Term {
+	if RealMode {
+		return realConst(f)
+	}
 	b := math.Float64bits(f)
 	if f != f {
 		b = 0x7ff8000000000001 // canonical NaN
@@ -445,6 +482,21 @@ func fpFold2(op string, a, b *Term) (*Term, bool) {
 }
 
 func FAdd(a, b *Term) *Term {
+	if RealMode {
+		if x, ok := ratOf(a); ok {
+			if y, ok := ratOf(b); ok {
+				return ratConst(new(big.Rat).Add(x, y))
+			}
+			if x.Sign() == 0 {
+				return b
+			}
+		}
+		if y, ok := ratOf(b); ok && y.Sign() == 0 {
+			return a
+		}
+		a, b = canon(a, b)
+		return rbin("+", a, b)
+	}
 	if r, ok := fpFold2("fp.add", a, b); ok {
 		return r
 	}
@@ -463,6 +515,9 @@ func FAdd(a, b *Term) *Term {
 // isNegZero builds "x is -0" without arithmetic where the shape of x allows:
 // under RNE a-b = -0 iff a = -0 and b = +0; a+b = -0 iff a = b = -0.
 func isNegZero(x *Term) *Term {
+	if RealMode {
+		return False
+	}
 	nz := FPConst(math.Copysign(0, -1))
 	pz := FPConst(0)
 	switch x.Op {
@@ -479,12 +534,35 @@ func isNegZero(x *Term) *Term {
 }
 
 func FSub(a, b *Term) *Term {
+	if RealMode {
+		if x, ok := ratOf(a); ok {
+			if y, ok := ratOf(b); ok {
+				return ratConst(new(big.Rat).Sub(x, y))
+			}
+		}
+		if y, ok := ratOf(b); ok && y.Sign() == 0 {
+			return a
+		}
+		if a == b {
+			return ratConst(new(big.Rat))
+		}
+		return rbin("-", a, b)
+	}
 	if r, ok := fpFold2("fp.sub", a, b); ok {
 		return r
 	}
 	return mk("fp.sub", SFP, "", nil, 0, a, b)
 }
 func FMul(a, b *Term) *Term {
+	if RealMode {
+		if x, ok := ratOf(a); ok {
+			if y, ok := ratOf(b); ok {
+				return ratConst(new(big.Rat).Mul(x, y))
+			}
+		}
+		a, b = canon(a, b)
+		return rbin("*", a, b)
+	}
 	if r, ok := fpFold2("fp.mul", a, b); ok {
 		return r
 	}
@@ -508,6 +586,14 @@ func FMul(a, b *Term) *Term {
 	return mk("fp.mul", SFP, "", nil, 0, a, b)
 }
 func FDiv(a, b *Term) *Term {
+	if RealMode {
+		if x, ok := ratOf(a); ok {
+			if y, ok := ratOf(b); ok && y.Sign() != 0 {
+				return ratConst(new(big.Rat).Quo(x, y))
+			}
+		}
+		return rbin("/", a, b)
+	}
 	if r, ok := fpFold2("fp.div", a, b); ok {
 		return r
 	}
@@ -520,6 +606,12 @@ func FDiv(a, b *Term) *Term {
 	return mk("fp.div", SFP, "", nil, 0, a, b)
 }
 func FNeg(a *Term) *Term {
+	if RealMode {
+		if x, ok := ratOf(a); ok {
+			return ratConst(new(big.Rat).Neg(x))
+		}
+		return mk("-", SReal, "", nil, 0, a)
+	}
 	if a.Op == "fp" {
 		return FPConst(-a.FloatVal())
 	}
@@ -529,12 +621,18 @@ func FNeg(a *Term) *Term {
 	return mk("fp.neg", SFP, "", nil, 0, a)
 }
 func FAbs(a *Term) *Term {
+	if RealMode {
+		return Ite(FLt(a, realConst(0)), FNeg(a), a)
+	}
 	if a.Op == "fp" {
 		return FPConst(math.Abs(a.FloatVal()))
 	}
 	return mk("fp.abs", SFP, "", nil, 0, a)
 }
 func FSqrt(a *Term) *Term {
+	if RealMode {
+		return mk("uf", SReal, "r!sqrt", nil, 0, a)
+	}
 	if a.Op == "fp" {
 		return FPConst(math.Sqrt(a.FloatVal()))
 	}
@@ -543,6 +641,9 @@ func FSqrt(a *Term) *Term {
 
 // FRound: mode is RTN (floor), RTP (ceil), RTZ (trunc), RNE.
 func FRound(mode string, a *Term) *Term {
+	if RealMode {
+		return mk("uf", SReal, "r!round!"+mode, nil, 0, a)
+	}
 	if a.Op == "fp" {
 		switch mode {
 		case "RTN":
@@ -559,6 +660,28 @@ func FRound(mode string, a *Term) *Term {
 }
 
 func fcmp(op string, a, b *Term) *Term {
+	if RealMode {
+		x, xok := ratOf(a)
+		y, yok := ratOf(b)
+		if xok && yok {
+			c := x.Cmp(y)
+			switch op {
+			case "fp.lt":
+				return Bool(c < 0)
+			case "fp.leq":
+				return Bool(c <= 0)
+			default:
+				return Bool(c == 0)
+			}
+		}
+		switch op {
+		case "fp.lt":
+			return mk("<", SBool, "", nil, 0, a, b)
+		case "fp.leq":
+			return mk("<=", SBool, "", nil, 0, a, b)
+		}
+		return Eq(a, b)
+	}
 	if a.Op == "fp" && b.Op == "fp" {
 		x, y := a.FloatVal(), b.FloatVal()
 		switch op {
@@ -578,6 +701,9 @@ func FGt(a, b *Term) *Term { return fcmp("fp.lt", b, a) }
 func FGe(a, b *Term) *Term { return fcmp("fp.leq", b, a) }
 func FEq(a, b *Term) *Term { return fcmp("fp.eq", a, b) } // IEEE ==
 func FIsNaN(a *Term) *Term {
+	if RealMode {
+		return False
+	}
 	if a.Op == "fp" {
 		f := a.FloatVal()
 		return Bool(f != f)
@@ -585,12 +711,18 @@ func FIsNaN(a *Term) *Term {
 	return mk("fp.isNaN", SBool, "", nil, 0, a)
 }
 func FIsInf(a *Term) *Term {
+	if RealMode {
+		return False
+	}
 	if a.Op == "fp" {
 		return Bool(math.IsInf(a.FloatVal(), 0))
 	}
 	return mk("fp.isInfinite", SBool, "", nil, 0, a)
 }
 func FIsNeg(a *Term) *Term {
+	if RealMode {
+		return fcmp("fp.lt", a, realConst(0))
+	}
 	if a.Op == "fp" {
 		f := a.FloatVal()
 		return Bool(f == f && math.Signbit(f))
@@ -598,6 +730,9 @@ func FIsNeg(a *Term) *Term {
 	return mk("fp.isNegative", SBool, "", nil, 0, a)
 }
 func FIsZero(a *Term) *Term {
+	if RealMode {
+		return Eq(a, realConst(0))
+	}
 	if a.Op == "fp" {
 		return Bool(a.FloatVal() == 0)
 	}
@@ -606,6 +741,12 @@ func FIsZero(a *Term) *Term {
 
 // I2F converts an Int term (assumed within int64 range) to float64, RNE.
 func I2F(a *Term) *Term {
+	if RealMode {
+		if a.Op == "int" {
+			return ratConst(new(big.Rat).SetInt(a.I))
+		}
+		return mk("to_real", SReal, "", nil, 0, a)
+	}
 	if a.Op == "int" {
 		f, _ := new(big.Float).SetInt(a.I).Float64()
 		return FPConst(f)
@@ -618,6 +759,11 @@ func I2F(a *Term) *Term {
 
 // F2I converts float64 to int64 the way amd64 does (NaN/out-of-range → MinInt64).
 func F2I(a *Term) *Term {
+	if RealMode {
+		// truncation towards zero
+		fl := mk("to_int", SInt, "", nil, 0, a)
+		return Ite(fcmp("fp.leq", realConst(0), a), fl, Neg(mk("to_int", SInt, "", nil, 0, FNeg(a))))
+	}
 	if a.Op == "fp" {
 		f := a.FloatVal()
 		if f != f || f >= 9.223372036854775808e18 || f < -9.223372036854775808e18 {
@@ -709,6 +855,20 @@ func (p *Printer) Print(t *Term) string {
 			s = "(- " + new(big.Int).Neg(t.I).String() + ")"
 		} else {
 			s = t.I.String()
+		}
+	case "real":
+		r, _ := new(big.Rat).SetString(t.Name)
+		num, den := r.Num(), r.Denom()
+		ns := num.String()
+		if num.Sign() < 0 {
+			ns = "(- " + new(big.Int).Neg(num).String() + ".0)"
+		} else {
+			ns += ".0"
+		}
+		if den.IsInt64() && den.Int64() == 1 {
+			s = ns
+		} else {
+			s = "(/ " + ns + " " + den.String() + ".0)"
 		}
 	case "fp":
 		b := t.F
